@@ -18,6 +18,7 @@ Decided:
     which a device-written response makes a teardown command fail (C20.Z4; GPU driver; configurations with `alloc`).
  T7 device-advertised window lengths bound every configuration access (C13.G1/G5 tables).
  T9 net receive claims the slot of the completed id before consuming the completion (C16.S4 custody rules).
+ T10 every return of the owning queue's poll has re-posted the popped buffer (C19.Q1).
  T8 a completion poll the device makes fail frees nothing that is still posted (C04.P8).
 Not decided: absence of panics (the property allows clean panics); arbitrary callers of the unsafe queue API.
 """
@@ -113,6 +114,11 @@ def run(F, R):
     from .C16 import s4_custody
     from . import C05 as _c5
     s4_custody(F, R, M, _c5.classify_api(_c5.queue_api(F, M)), rule='T9', only=('receive', 'recycle_rx_buffer'))
+    # T10: the owning queue's pop trusts a device-reported token because buffer i is always in the queue under descriptor i:
+    # every return of poll (the handler's error included) re-posts the popped buffer (C19.Q1); otherwise a repeated id
+    # recycles a free descriptor and unshares its buffer a second time
+    from .C19 import poll_rule
+    poll_rule(F, R, 'T10')
     if 'device::gpu::VirtIOGpu' in F.adts:
         from . import C05 as _c5
         from .C20 import z3_z4_gpu
